@@ -320,6 +320,81 @@ def judge(history: list[tuple[str, str, str]], recs: list[dict[str, Any]]) -> li
     return viols
 
 
+# ---- histories over the template constructors ------------------------------------------------------------------
+# liquid.Template / liquid.parse build templates on process-wide implicit environments; Environment.from_string
+# builds them on an environment the caller keeps.  A history creates up to CTOR_DEPTH template objects (all are
+# KEPT) and renders every kept object after every creation and once more at the end, so a constructor that hands
+# the same object, the same globals or the same parse to a later caller shows on the earlier objects.
+CTOR_SRC = {
+    "g": "{{ g }}{{ h }}|{{ x }}",
+    "a": "{% assign g = x %}{{ g }}{{ h }}{% increment h %}",
+    "i": "{% if g %}{{ g | upcase }}{% else %}none{% endif %}<{{ x }}>",
+}
+CTOR_GLOBALS: dict[str, Any] = {"none": None, "A": {"g": "ga"}, "B": {"g": "gb", "h": "hb"}}
+CTOR_OPTS: dict[str, dict[str, Any]] = {"T": {}, "Tauto": {"autoescape": True}, "Textra": {"extra": True}}
+CTOR_DATA: dict[str, dict[str, Any]] = {"d0": {"x": 1}, "d1": {"x": "<2>", "h": "dh"}}
+CTOR_DEPTH = 3
+
+
+def ctor_ops() -> list[tuple[str, str, str]]:
+    ops = [(c, s, g) for c in (*CTOR_OPTS, "from_string") for s in CTOR_SRC for g in CTOR_GLOBALS]
+    ops += [("parse", s, "none") for s in CTOR_SRC]
+    return ops
+
+
+class CtorRunner:
+    def __init__(self) -> None:
+        import liquid
+
+        self.liquid = liquid
+        self.env = liquid.Environment(globals={"eg": "EG"})
+        self.objs: list[Any] = []
+
+    def create(self, op: tuple[str, str, str]) -> None:
+        c, s, g = op
+        src = CTOR_SRC[s]
+        gl = CTOR_GLOBALS[g]
+        gl = dict(gl) if gl is not None else None  # every caller passes its own mapping
+        if c == "parse":
+            t = self.liquid.parse(src)
+        elif c == "from_string":
+            t = self.env.from_string(src, globals=gl)
+        else:
+            t = self.liquid.Template(src, globals=gl, **CTOR_OPTS[c])
+        self.objs.append(t)
+
+    def render(self, k: int, d: str) -> list[Any]:
+        from mc import util as U
+
+        return list(U.render(self.objs[k], dict(CTOR_DATA[d])).kind())
+
+
+def ctor_history(ops: list[tuple[str, str, str]]) -> list[tuple[int, str, list[Any]]]:
+    """Returns [(object index, data id, output)] for the render schedule of this creation history."""
+    r = CtorRunner()
+    obs = []
+    for n, op in enumerate(ops):
+        r.create(tuple(op))  # type: ignore[arg-type]
+        for k in range(n, -1, -1):  # newest first, then every earlier object again
+            obs.append((k, "d0", r.render(k, "d0")))
+    for k in range(len(ops)):
+        obs.append((k, "d1", r.render(k, "d1")))
+    return obs
+
+
+def ctor_pristine_table() -> dict[str, Any]:
+    """(op, data) -> output when that is the only template ever created and rendered in the process."""
+    tab = {}
+    for op in ctor_ops():
+        for d in CTOR_DATA:
+            def one(op: Any = op, d: str = d) -> Any:
+                r = CtorRunner()
+                r.create(op)
+                return r.render(0, d)
+            tab["/".join(op) + "@" + d] = _in_child(one)
+    return tab
+
+
 class C17(Check):
     id = "C17"
     level = "model_checking"
@@ -329,7 +404,11 @@ class C17(Check):
         "(date memo, stateful tags, list filters, partials/macros/inheritance) is executed in a child forked from a "
         "never-rendered process; after every render: output equals the action's fresh-process output, data snapshot "
         "and identity unchanged, template fingerprint unchanged, environment globals unchanged. states = history "
-        "prefixes executed, transitions = renders. Non-trivial = history of length >= 2."
+        "prefixes executed, transitions = renders. Non-trivial = history of length >= 2. Constructor histories: every sequence of <= 3 "
+        "(4 in thorough, same source) template creations over liquid.Template (3 option sets), liquid.parse and "
+        "Environment.from_string x 3 sources x 3 globals mappings, all objects kept; every kept object is rendered "
+        "after every creation and again at the end; each output must equal that of the same creation + render as "
+        "the only activity of a fresh process."
     )
     assumptions = [
         "the current time (now/today) is excluded from the alphabet",
@@ -341,6 +420,7 @@ class C17(Check):
 
     def bounds(self, tier: str) -> dict[str, Any]:
         return {"all_actions_depth": 2, "family_depth": self.depth(tier), "actions": len(all_actions()),
+                "ctor_ops": len(ctor_ops()), "ctor_depth": CTOR_DEPTH if tier == "quick" else CTOR_DEPTH + 1,
                 "families": {k: len(v) for k, v in FAMILIES.items()}}
 
     def shards(self, tier: str) -> list[Any]:
@@ -366,6 +446,10 @@ class C17(Check):
         # different data sets (node-level memoisation keyed without the data shows here)
         for i in range(16):
             sh.append(("prog", i, 16, table))
+        # constructor histories: one shard per first creation
+        ctab = ctor_pristine_table()
+        for op in ctor_ops():
+            sh.append(("ctor", op, ctab, table))
         return sh
 
     def histories(self, shard: Any) -> Iterator[list[tuple[str, str, str]]]:
@@ -388,6 +472,9 @@ class C17(Check):
             _PRISTINE.setdefault(tuple(a), out)
         if shard[0] == "prog":
             self.run_programs(shard[1], shard[2], tier, res)
+            return res
+        if shard[0] == "ctor":
+            self.run_ctor(tuple(shard[1]), shard[2], tier, res)
             return res
         if shard[0] == "num":
             # pristine outputs of the numeric actions: each action alone in its own process state; to keep the
@@ -441,6 +528,30 @@ class C17(Check):
         res.fixpoint = False
         return res
 
+    def run_ctor(self, first: Any, ctab: dict[str, Any], tier: str, res: Result) -> None:
+        ops = ctor_ops()
+        depth = CTOR_DEPTH if tier == "quick" else CTOR_DEPTH + 1
+        hists = [[first, *rest] for n in range(0, depth) for rest in itertools.product(ops, repeat=n)]
+        if tier != "quick":
+            # depth 4 only within one source (the collision class): 2 further creations over all ops, then 1 same-source
+            hists = [h for h in hists if len(h) < 4 or h[3][1] == h[0][1]]
+        all_obs = _in_child(lambda: [ctor_history(h) for h in hists])
+        for h, obs in zip(hists, all_obs):
+            res.states += 1
+            res.transitions += len(obs)
+            res.traces += 1
+            res.max_depth = max(res.max_depth, len(h))
+            bad = [(k, d, out) for k, d, out in obs if out != ctab["/".join(h[k]) + "@" + d]]
+            res.case(nontrivial=["ctor", *h] if len(h) >= 2 else None, outcome="ctor:viol" if bad else "ctor:ok")
+            if bad:
+                k, d, out = bad[0]
+                later = sorted({"/".join(o) for o in h if o != h[k]})[:1]
+                res.violation({"clause": "history-independence", "family": "constructors", "ctor": h[k][0],
+                               "same_source_elsewhere": any(o[1] == h[k][1] for j, o in enumerate(h) if j != k)},
+                              f"templates created by {h}: rendering object #{k} ({h[k]}) with {d} gives {out!r}; when it is "
+                              f"the only template created in the process it gives {ctab['/'.join(h[k]) + '@' + d]!r} (other: {later})",
+                              {"ctor_history": [list(o) for o in h]})
+
     def run_programs(self, i: int, n: int, tier: str, res: Result) -> None:
         """Same parsed template, two data sets in a row; the second output must equal its own first-render output."""
         from mc.gen import programs as G
@@ -487,6 +598,13 @@ class C17(Check):
                               {"program": p.source, "first": la, "second": lb})
 
     def replay(self, case: Any) -> list[dict[str, Any]]:
+        if "ctor_history" in case:
+            h = [tuple(o) for o in case["ctor_history"]]
+            obs = _in_child(lambda: ctor_history(h))  # type: ignore[arg-type]
+            ctab = ctor_pristine_table()
+            return [{"signature": {"clause": "history-independence", "family": "constructors"},
+                     "what": f"object #{k} {h[k]} with {d}: {out!r} != {ctab['/'.join(h[k]) + '@' + d]!r}"}
+                    for k, d, out in obs if out != ctab["/".join(h[k]) + "@" + d]]
         if "program" in case:
             from mc import util as U
             from mc.gen import programs as G
